@@ -348,6 +348,9 @@ pub struct Obs {
     pub hb_stall: i64,
     /// which sender session threads ended with a panic
     pub panicked: Vec<bool>,
+    /// senders whose `GlobalData.delayed_send` still held guards after their thread had ended
+    /// (regression P19: the end of a session drops every guard, synchronously)
+    pub guards_left: Vec<usize>,
     /// wall-clock stamps of the `pre` mark of send k and of the arrivals of event k
     pub wall_pre: BTreeMap<usize, std::time::SystemTime>,
     pub wall_recv: Vec<(usize, std::time::SystemTime)>,
@@ -385,6 +388,15 @@ fn sleep_until(t: Instant) {
         } else {
             std::hint::spin_loop();
         }
+    }
+}
+
+/// after the session thread has ended: is a guard of a delayed send still registered?  (white box; the
+/// Stop latency of the dropped timer is too short to be seen from outside on a calm machine)
+fn guards_left(s: &ScxmlSession) -> bool {
+    match s.global_data.lock() {
+        Ok(g) => !g.delayed_send.is_empty(),
+        Err(_) => false, // poisoned by a panic of the session thread: reported as that
     }
 }
 
@@ -459,6 +471,8 @@ pub fn run_case(case: &Case, delays: &BTreeMap<usize, i64>, expect_n: usize, hb:
                     joined.insert(i, us(Instant::now()));
                     if p {
                         obs.panicked[o.sess] = true;
+                    } else if guards_left(&senders[o.sess]) {
+                        obs.guards_left.push(o.sess);
                     }
                 }
                 Err(()) => obs.problems.push(format!("sender {} did not terminate", o.sess)),
@@ -488,7 +502,11 @@ pub fn run_case(case: &Case, delays: &BTreeMap<usize, i64>, expect_n: usize, hb:
         match join_with_timeout(s, Duration::from_secs(3)) {
             Ok(true) => obs.panicked[i] = true,
             Err(()) => obs.problems.push(format!("sender {} did not stop", i)),
-            _ => {}
+            Ok(false) => {
+                if guards_left(s) && !obs.guards_left.contains(&i) {
+                    obs.guards_left.push(i);
+                }
+            }
         }
     }
     // digest the marks
@@ -621,7 +639,7 @@ fn model_script(case: &Case, model: &mut Model) -> (String, BTreeMap<usize, i64>
                 for (j, s) in ss.iter().enumerate() {
                     let (d, _) = model_dur(model, &s.delay);
                     delays.insert(s.k, d);
-                    if j > 0 && ss[..j].iter().any(|q| *delays.get(&q.k).unwrap_or(&0) < 0) {
+                    if j > 0 && ss[..j].iter().any(|q| send_fails(*delays.get(&q.k).unwrap_or(&0))) {
                         // an element of a block of executable content that fails ends the block
                         // (`executeContent` stops at the first `false`): this send never executes
                         delays.insert(s.k, -2);
@@ -635,8 +653,9 @@ fn model_script(case: &Case, model: &mut Model) -> (String, BTreeMap<usize, i64>
             }
             OpKind::Cancel(id) => items.push((o.at, 1, format!("{}C,{}", c, hexs(id)))),
             OpKind::Assign(n) => items.push((o.at, 1, format!("{}A,{}", c, n))),
-            // a calm run: the timer's threads see the Stop message at once
-            OpKind::Term => items.push((o.at, 1, format!("{c}X;{c}Z"))),
+            // the end of the session thread cancels what is pending; when the timer's threads see the
+            // Stop message does not matter any more (P19 repaired), so the script does not say
+            OpKind::Term => items.push((o.at, 1, format!("{c}X"))),
         }
     }
     let mut t = 0;
@@ -655,7 +674,8 @@ pub struct ModelRun {
     /// (k, payload, session index) in delivery order
     pub deliveries: Vec<(usize, String, usize)>,
     pub errors: Vec<usize>,
-    /// the session thread panics (delay beyond chrono's date range)
+    /// the session thread panics: the model never says so any more (`crash=0,0`); compared with the
+    /// panic flag of every real sender thread
     pub crashed: Vec<bool>,
 }
 
@@ -696,7 +716,7 @@ fn oracle_request(case: &Case, obs: &Obs, delays: &BTreeMap<usize, i64>) -> Stri
     for (sess, _at, s) in case.sends() {
         if let Some((pre, post, val)) = obs.sends.get(&s.k) {
             let d = *delays.get(&s.k).unwrap_or(&0);
-            if d < 0 {
+            if send_fails(d) {
                 continue; // aborted sends are judged by the error count
             }
             let post = post.unwrap_or(obs.end_us);
@@ -729,16 +749,6 @@ fn oracle_request(case: &Case, obs: &Obs, delays: &BTreeMap<usize, i64>) -> Stri
                 }
             }
             _ => {}
-        }
-    }
-    for sess in 0..case.senders {
-        if let Some((ci, cj)) = crash_point(case, delays, sess) {
-            if let OpKind::Send(ss) = &case.ops[ci].kind {
-                if let Some((pre, _, _)) = obs.sends.get(&ss[cj].k) {
-                    // the session thread dies somewhere after this stamp
-                    terms.push(format!("{},{},{}", sess, pre, obs.end_us));
-                }
-            }
         }
     }
     let recvs: Vec<String> = obs.recvs.iter().map(|(k, who, t, v)| format!("{},{},{},{}", k, who, t, if v.is_empty() { "_" } else { v })).collect();
@@ -830,7 +840,7 @@ pub fn gen_case(p: &mut Prng) -> Case {
                     continue;
                 }
                 if special < 16 && special >= 14 {
-                    // far in the future (never fires here) or beyond chrono's date range (the session thread panics)
+                    // far in the future (never fires here) or beyond chrono's date range (error.execution, the block ends)
                     let delay = p.pick(&["8e15ms", "92000000d", "9223372036854775807ms", "1e17ms", "99999999999d", "8.4e15ms", "2333333333333h"]).to_string();
                     ss.push(SendSpec { k, id: if p.chance(1, 2) { Some("A".to_string()) } else { None }, delay, expr: true, to_self: false, var: true, loc: false });
                     k += 1;
@@ -876,14 +886,6 @@ pub fn gen_case(p: &mut Prng) -> Case {
                 ss.push(SendSpec { k, id, delay, expr: p.chance(1, 3), to_self: p.chance(1, 5), var: p.chance(3, 4), loc: p.chance(1, 7) });
                 k += 1;
             }
-            // a session that panics in this block never reads its own external queue again: what it
-            // sends to itself here would be handed over (as the model says) but never observed
-            if ss.iter().any(|q| ["9223372036854775807ms", "1e17ms", "99999999999d", "8.4e15ms", "2333333333333h"].contains(&q.delay.as_str())) {
-                for q in ss.iter_mut() {
-                    q.to_self = false;
-                }
-                alive[sess] = false;
-            }
             OpKind::Send(ss)
         } else if roll < 70 {
             // cancel: mostly an id that is pending here, sometimes another one (pending in the other session, or nowhere)
@@ -918,7 +920,7 @@ fn mk_send(k: usize, id: Option<&str>, delay: &str) -> SendSpec {
 pub fn corpus() -> Vec<(&'static str, Case)> {
     let op = |sess, at, kind| Op { sess, at, kind };
     vec![
-        // P15: same send id twice while the first is pending: the first is lost
+        // regression P15 (repaired): same send id twice while the first is pending: both are delivered
         (
             "P15 duplicate send id",
             Case {
@@ -987,7 +989,7 @@ pub fn corpus() -> Vec<(&'static str, Case)> {
                 sabotage: None,
             },
         ),
-        // termination discards what is pending, also what has no id
+        // termination discards what is pending, also what has no id (regression P19: at once, by dropping the guards)
         (
             "termination discards",
             Case {
@@ -1011,7 +1013,7 @@ pub fn corpus() -> Vec<(&'static str, Case)> {
                 sabotage: None,
             },
         ),
-        // an array handed over by location stays shared with the sender's datamodel
+        // regression P18 (repaired): an array handed over by location is copied, a later assign does not reach it
         (
             "shared container",
             Case {
@@ -1032,7 +1034,8 @@ pub fn corpus() -> Vec<(&'static str, Case)> {
                 sabotage: None,
             },
         ),
-        // a delay beyond chrono's date range panics the session thread; what was pending is discarded
+        // regression C12-huge-delay (repaired): a delay beyond chrono's date range is error.execution and ends
+        // its block (send 5 is not executed); the session goes on: what was pending and what is sent later arrives
         (
             "delay beyond the calendar",
             Case {
@@ -1103,26 +1106,15 @@ fn stalled(o: &Obs) -> bool {
     o.max_op_late > STALL_US || o.max_recv_late > STALL_US || o.hb_stall > HB_STALL_US
 }
 
-/// how many deliveries the *property* expects from the plan (ignoring what the model says about
-/// overwritten send ids): sends that are carried out, not cancelled and not cut off by termination
-/// a delay the model answers with a panic of the session thread (far beyond chrono's date range)
-const CRASH_MS: i64 = 8_300_000_000_000_000;
+/// a delay beyond chrono's date range (the measured headroom is about 8.21e15 ms; the generated delays
+/// keep 2-3 % away from it on either side): `Fsm::schedule` refuses it, `<send>` fails with error.execution
+const BEYOND_MS: i64 = 8_300_000_000_000_000;
 
-/// (operation index, position in its block) of the first send of `sess` that panics
-fn crash_point(case: &Case, delays: &BTreeMap<usize, i64>, sess: usize) -> Option<(usize, usize)> {
-    for (i, o) in case.ops.iter().enumerate() {
-        if o.sess != sess {
-            continue;
-        }
-        if let OpKind::Send(ss) = &o.kind {
-            for (j, s) in ss.iter().enumerate() {
-                if *delays.get(&s.k).unwrap_or(&0) >= CRASH_MS {
-                    return Some((i, j));
-                }
-            }
-        }
-    }
-    None
+/// is a `<send>` with this delay (as the model's `parseDuration` gives it) not carried out?  negative =
+/// invalid or negative duration, `BEYOND_MS` and more = not a date; either way error.execution, and the
+/// rest of its block of executable content is not executed
+fn send_fails(d: i64) -> bool {
+    d < 0 || d >= BEYOND_MS
 }
 
 /// how many deliveries the *property* expects from the plan (ignoring what the model says about
@@ -1130,20 +1122,12 @@ fn crash_point(case: &Case, delays: &BTreeMap<usize, i64>, sess: usize) -> Optio
 fn property_expected(p: &Prepared) -> usize {
     let case = &p.case;
     let mut n = 0;
-    for (i, o) in case.ops.iter().enumerate() {
+    for o in case.ops.iter() {
         let OpKind::Send(ss) = &o.kind else { continue };
-        let crash = crash_point(case, &p.delays, o.sess);
-        for (j, s) in ss.iter().enumerate() {
+        for s in ss.iter() {
             let d = *p.delays.get(&s.k).unwrap_or(&-1);
             if d < 0 || d > 1_000_000 {
                 continue;
-            }
-            if let Some((ci, cj)) = crash {
-                // not executed any more / discarded with the panicking session
-                let crash_at = case.ops[ci].at;
-                if (ci, cj) <= (i, j) && (case.ops[ci].at < o.at || ci == i) || (crash_at >= o.at && crash_at < o.at + d as u64) {
-                    continue;
-                }
             }
             let due = o.at + d as u64;
             let cut = case.ops.iter().any(|q| {
@@ -1250,7 +1234,7 @@ fn judge(p: &Prepared, out: &Outcome, model: &mut Model, rep: &mut Report) {
                     rep.count(if s.to_self { "send_to_self" } else { "send_to_recorder" });
                     rep.count(if s.loc { "payload_array_by_location" } else if s.var { "payload_variable" } else { "payload_constant" });
                     let d = *p.delays.get(&s.k).unwrap_or(&0);
-                    rep.count(if d < 0 { "delay_negative_or_invalid" } else if d == 0 { "delay_zero" } else if d >= CRASH_MS { "delay_beyond_calendar" } else if d > 1_000_000 { "delay_far_future" } else { "delay_positive" });
+                    rep.count(if d < 0 { "delay_negative_or_invalid" } else if d == 0 { "delay_zero" } else if d >= BEYOND_MS { "delay_beyond_calendar" } else if d > 1_000_000 { "delay_far_future" } else { "delay_positive" });
                 }
             }
             OpKind::Cancel(_) => rep.count("op_cancel"),
@@ -1275,6 +1259,10 @@ fn judge(p: &Prepared, out: &Outcome, model: &mut Model, rep: &mut Report) {
             return;
         }
     };
+    if !out.obs.guards_left.is_empty() && case.sabotage.is_none() {
+        // (d), white box: the session thread has ended and delayed sends of it are still armed
+        rep.oracle_fail("C16:terminated-delivered:guards-left-at-exit", json!({"origin": p.origin, "case": cj, "senders": out.obs.guards_left}));
+    }
     rep.add("deliveries_predicted", predicted.deliveries.len() as u64);
     rep.add("deliveries_observed", out.obs.recvs.len() as u64);
     // --- the property's predicate on the observed run
@@ -1287,15 +1275,15 @@ fn judge(p: &Prepared, out: &Outcome, model: &mut Model, rep: &mut Report) {
         for f in verdict.split('|') {
             let mut sig = signature_of(f);
             if sig == "C16:late-value" {
-                // which send?  a container handed over by location is the known sharing defect
+                // which send?  a container handed over by location: the sharing defect P18 (repaired) is back
                 let k = f.split(':').nth(1).and_then(|x| x.parse::<usize>().ok());
                 if case.sends().iter().any(|(_, _, s)| Some(s.k) == k && s.loc) {
                     sig = "C16:late-value:shared-container".to_string();
                 }
             }
-            // verdicts that rest on the promptness of the timer crate's own threads are only taken
-            // from a calm run; from a stalled one they are the documented asynchrony of `Stop`
-            // (known finding) or simply undecided
+            // an order verdict rests on the promptness of the timer crate's own threads and is only taken
+            // from a calm run.  `terminated-delivered` counts from any run: the end of the session
+            // cancels synchronously (P19 repaired), no stall can excuse a delivery after the join
             if sig == "C16:early" {
                 // `timer` schedules by the wall clock, the stamps are monotonic: was it early by its own clock too?
                 let k = f.split(':').nth(1).and_then(|x| x.parse::<usize>().ok()).unwrap_or(usize::MAX);
@@ -1310,13 +1298,9 @@ fn judge(p: &Prepared, out: &Outcome, model: &mut Model, rep: &mut Report) {
                 }
             }
             if out.stalled {
-                match sig.as_str() {
-                    "C16:terminated-delivered" => sig = "C16:terminated-delivered:stop-latency-under-stall".to_string(),
-                    "C16:order" => {
-                        rep.count("stalled_order_verdict_ignored");
-                        continue;
-                    }
-                    _ => {}
+                if sig == "C16:order" {
+                    rep.count("stalled_order_verdict_ignored");
+                    continue;
                 }
             }
             if seen.insert(sig.clone()) {
@@ -1357,18 +1341,7 @@ fn judge(p: &Prepared, out: &Outcome, model: &mut Model, rep: &mut Report) {
     rep.sample(json!({"case": cj, "script": p.script, "observed": format!("{:?}", impl_seq), "attempts": out.attempts}));
 }
 
-fn prepare(origin: String, mut case: Case, model: &mut Model) -> Prepared {
-    // a session that panics in a block never reads its own external queue again: what it sends to
-    // itself in that block is handed over (as the model says) but cannot be observed — retarget it
-    for o in case.ops.iter_mut() {
-        if let OpKind::Send(ss) = &mut o.kind {
-            if ss.iter().any(|q| model_dur(model, &q.delay).0 >= CRASH_MS) {
-                for q in ss.iter_mut() {
-                    q.to_self = false;
-                }
-            }
-        }
-    }
+fn prepare(origin: String, case: Case, model: &mut Model) -> Prepared {
     let (script, delays) = model_script(&case, model);
     let predicted = model_run(model, &script);
     Prepared { origin, case, script, delays, predicted }
